@@ -528,6 +528,8 @@ class BaseCurve(Intface_BaseCurve):
             numer.update(newknotvector, tolerance, nodes)
             denom.update(newknotvector, tolerance, nodes)
             weights = denom.ctrlpoints
+            if any(weight == 0 for weight in weights):
+                raise ValueError("A weight of the updated curve would be zero")
             points = [pt / wi for pt, wi in zip(numer.ctrlpoints, weights)]
             temp_curve = self.__class__(newknotvector, points, weights)
             self.__knotvector = newknotvector
